@@ -17,7 +17,8 @@ RULE = ("seeded random put worlds with 1-4 arguments mixing trashable entries, d
         "named pipes, names that are not UTF-8, -f / -i with replies; each multi-argument world is also run one argument at a time "
         "on copies and the per-argument outcome (trashed / untouched, named on stderr, trash directory and recorded Path of the new "
         ".trashinfo) compared; plus forced lists where a mount point (passes the gates, cannot be moved) stands before or "
-        "after trashable entries that belong in the same trash directory")
+        "after trashable entries that belong in the same trash directory; plus worlds in which every exclusive create of an info "
+        "file is refused for good (ENAMETOOLONG / EACCES / ENOSPC / EROFS / EIO): reported, the other arguments handled, within a step budget")
 
 
 def forced_world(rng):
@@ -140,7 +141,37 @@ def run(tier, seed):
         if r["diffs"]:
             ck.violation("independence", {"oracle": "independence"}, {"world": r["world"], "differences": r["diffs"]})
     ck.extra["independence_runs"] = done
+    # an argument whose trashing fails for good (every attempt to create its info file is refused with the same error) is
+    # reported and the arguments after it are handled all the same - within a bounded number of steps
+    for r in run_tasks(stuck_task, [{"seed": seed, "i": i} for i in range(24 if tier == "quick" else 300)]):
+        if "machinery" in r:
+            from ..lean import MachineryError
+            raise MachineryError(r["machinery"])
+        ck.case(("stuck", r["key"]), tags=["persistent-fault:" + r["errno"], "exit:%s" % r["exit"]], sample=r["key"])
+        for m in r["mismatch"]:
+            ck.disagreement("Model.Put under a persistent fault vs trashcli.put (%s)" % m["what"], {"world": r.get("world"), "plan": r.get("plan"), "difference": m})
+        for b in r["bad"]:
+            ck.violation(b["verdict"], {"oracle": b["oracle"], "persistent_fault": r["errno"]}, {"world": r.get("world"), "plan": r.get("plan"), "verdict": b["verdict"]})
     return ck.finish(info, LEVEL_NOTE, RULE)
+
+
+def stuck_task(task):
+    from .. import putcheck
+    from ..runner import driver, jsonable
+    rng = task_rng("C16stuck", task["seed"], task["i"])
+    world = gen_put_world(rng, "mixed")
+    errno_ = ["ENAMETOOLONG", "EACCES", "ENOSPC", "EROFS", "ENAMETOOLONG", "EIO"][task["i"] % 6]
+    plan = {"faults": [{"op": "createExcl", "persistent": True, "errno": errno_}], "budget": 3000}
+    r = putcheck.evaluate(world, driver(), plan=plan, model_faults=plan["faults"], oracles=("C01", "C16"))
+    out = {"key": (errno_, len(world["args"]), task["i"]), "errno": errno_, "exit": r["obs_exit"], "mismatch": r["mismatch"], "bad": []}
+    if r["obs_exit"] == "budget":
+        out["bad"].append({"oracle": "terminates", "verdict": "did-not-terminate-within-budget"})
+    for name, v in r["oracle"].items():
+        if not v["ok"] and not any(m_.get("spelling") == "symlink-dotdot" for m_ in world.get("meta", [])):
+            out["bad"].append({"oracle": name, "verdict": v["verdict"]})
+    if out["mismatch"] or out["bad"]:
+        out["world"], out["plan"] = jsonable(world), plan
+    return out
 
 
 def replay(path):
